@@ -70,7 +70,7 @@ def pytree_sessions(rng, n):
 
 def pytree_part(R):
     import gen_trees as T
-    sessions = pytree_sessions(R.rng, 6000 if R.thorough else 500)
+    sessions = pytree_sessions(R.rng, 20000 if R.thorough else 500)
     nw = 4
     chunks = [sessions[i::nw] for i in range(nw)]
     from concurrent.futures import ThreadPoolExecutor
@@ -109,7 +109,7 @@ def pytree_part(R):
 def main():
     R = vf.Report(PID)
     proved = R.proof_step()
-    n = 30000 if R.thorough else 2500
+    n = 90000 if R.thorough else 2500
     sessions = engineered() + [G.gen_session(R.rng, raising=(i % 2 == 0), p_perturb=.5) for i in range(n)]
     out = vf.impl("impl_array.py", {"mode": "sessions", "sessions": sessions})
     impl, cats = out["results"], out["cat_dtypes"]
